@@ -240,4 +240,19 @@ def fromFile (dec : Bytes → Option Bytes) (file : Bytes) (sizeHint : Option Na
           else if packSize blobs ≠ packSz then .error .packSize
           else .ok blobs
 
+/-! ### the `cacheable` flag of ranged pack reads (C08 round 3)
+
+* `headerReadCacheable` — the third argument of BOTH `be.read_partial(FileType::Pack, &id, false, ..)` calls in
+  `PackHeader::from_file` (the guessed tail and the re-read): `false`, whatever kind of pack it is (the function does not
+  know the pack's blob type).
+* `blobReadCacheable`   — blob reads (`IndexEntry::read_data`, the repacker): `self.blob_type.is_cacheable()`
+  (`blob.rs BlobType::is_cacheable`: `Tree => true, Data => false`).
+On a hot/cold repository a `cacheable` pack read is served by the HOT part (`Model/HotCold.lean usesHot`), which holds
+tree packs only. -/
+def headerReadCacheable (_t : BlobType) : Bool := false
+
+def blobReadCacheable : BlobType → Bool
+  | .tree => true
+  | .data => false
+
 end Rustic.Pack
